@@ -688,6 +688,40 @@ fn op_applied_to_last_axis<Op: OperatorAxis + 'static>(graph: &Graph, node_id: N
     input_last_axis == Some(axis)
 }
 
+/// Check that the constant `param_id` can be used as the `scale` or `bias`
+/// input of a normalization operator which is applied to the last axis of
+/// `input_id`.
+///
+/// The unfused subgraph broadcasts the parameter against the normalized input.
+/// The fused operator requires it to be a scalar or a vector with one element
+/// per normalized element, and always produces an output with the same shape
+/// as the input.
+fn check_norm_param(graph: &Graph, param_id: NodeId, input_id: NodeId) -> Result<(), FusionError> {
+    let Some(Node::Constant(param)) = graph.get_node(param_id) else {
+        return Err(FusionError::CheckFailed("scale or bias is not constant"));
+    };
+    let param_len = match param.shape() {
+        [] => return Ok(()),
+        [len] => *len,
+        _ => {
+            return Err(FusionError::CheckFailed(
+                "scale or bias is not a scalar or vector",
+            ));
+        }
+    };
+
+    // If the normalized axis has size 1, a longer vector would expand it.
+    let input_shape = graph.get_node(input_id).and_then(|n| n.shape());
+    if param_len != 1 && input_shape.as_deref().and_then(|s| s.last()) == Some(&Dimension::Fixed(1))
+    {
+        return Err(FusionError::CheckFailed(
+            "scale or bias is longer than normalized axis",
+        ));
+    }
+
+    Ok(())
+}
+
 /// Identify and fuse common patterns for `LayerNormalization(X)`.
 pub struct LayerNormalizationFusion {}
 
@@ -754,6 +788,12 @@ impl PatternFusion for LayerNormalizationFusion {
             .and_then(|variance| graph.get_scalar_operand(epsilon_input, variance))
             .ok_or(FusionError::CheckFailed("epsilon not a scalar"))?;
 
+        let x_input = pat_match.node_id("x").unwrap();
+        check_norm_param(graph, pat_match.node_id("scale").unwrap(), x_input)?;
+        if let Some(bias_input) = pat_match.node_id("bias") {
+            check_norm_param(graph, bias_input, x_input)?;
+        }
+
         Ok(LayerNormalization {
             axis: -1,
             epsilon: Some(epsilon),
@@ -812,6 +852,9 @@ impl PatternFusion for RMSNormalizationFusion {
         if !op_applied_to_last_axis::<ReduceMean>(graph, norm_mean) {
             return Err(FusionError::CheckFailed("not applied to last axis"));
         }
+
+        let x_input = rms_match.node_id("x").unwrap();
+        check_norm_param(graph, rms_match.node_id("scale").unwrap(), x_input)?;
 
         Ok(RMSNormalization {
             axis: -1,
